@@ -96,12 +96,13 @@ def generate(rng, tier):
     # 1. one long run across the wrap, sound on throughout
     long_lines = setup(rng) + [cyc(1060000), 'apu.samples']
     cases.append(('long', long_lines))
-    cases.append(('long2', setup(rng) + [cyc(900000), w(NR51, rng.randrange(256)), cyc(1300000), 'apu.samples']))
+    cases.append(('long2', ['apu.setticks 3900001 %d' % rng.randrange(512)] + setup(rng) +
+                  [cyc(50000), w(NR51, rng.randrange(256)), cyc(100000), 'apu.samples']))
     if tier == 'thorough':
         for k in range(3):
             cases.append(('long%d' % k, setup(rng) + [cyc(700000), w(NR51, rng.randrange(256)), cyc(2500000), 'apu.samples']))
     # 2. random schedules
-    ns = 40 if tier == 'quick' else 400
+    ns = 32 if tier == 'quick' else 400
     for k in range(ns):
         cases.append(('s%d' % k, schedule(rng, rng.choice([10000, 30000, 60000]), rng.randrange(5, 30))))
     # 3. starting just before the wrap
@@ -190,7 +191,7 @@ def extra(check, impl_cases, model_cases, cases):
         if any(not (0 <= a < 6400 and 0 <= b < 6400) for a, b in pairs):
             bad(cid, lines, 'sample outside [0,1)')
         # pacing: sound on throughout, no hook use
-        if cid.startswith('long') or cid == 'mute' or cid.startswith('p'):
+        if (cid.startswith('long') and cid != 'long2') or cid == 'mute' or cid.startswith('p'):
             clocks = 0
             total = 0
             for l in lines:
